@@ -572,6 +572,51 @@ def slice_bounds(sl, n):
     return a, st, ln
 
 
+def _key(i):
+    if isinstance(i, (int, Fraction)):
+        return ("c", i)
+    e = getattr(i, "e", None)
+    if e is not None and hasattr(e, "get_id"):
+        return ("z", e.get_id())
+    return None
+
+
+def memo1(fn):
+    """element functions are pure: cache by index (keeps the index term alive, z3 re-uses ids)"""
+    cache = {}
+
+    def f(i):
+        k = _key(i)
+        if k is None:
+            return fn(i)
+        hit = cache.get(k)
+        if hit is not None and (k[0] == "c" or hit[0].e.eq(i.e)):
+            return hit[1]
+        v = fn(i)
+        cache[k] = (i, v)
+        return v
+    f._memo = True
+    return f
+
+
+def memo2(fn):
+    cache = {}
+
+    def f(i, j):
+        ki, kj = _key(i), _key(j)
+        if ki is None or kj is None:
+            return fn(i, j)
+        k = (ki, kj)
+        hit = cache.get(k)
+        if hit is not None and (ki[0] == "c" or hit[0].e.eq(i.e)) and (kj[0] == "c" or hit[1].e.eq(j.e)):
+            return hit[2]
+        v = fn(i, j)
+        cache[k] = (i, j, v)
+        return v
+    f._memo = True
+    return f
+
+
 class Arr:
     """1-D numpy array / Python list of scalars.
 
@@ -580,6 +625,14 @@ class Arr:
     ``items[k]`` / wraps ``fn``; every derived array captures a *snapshot* (a pure function)
     so later in-place writes to a source are not seen by values computed earlier.
     """
+
+    @property
+    def fn(self):
+        return self._fn
+
+    @fn.setter
+    def fn(self, f):
+        self._fn = f if (f is None or getattr(f, "_memo", False)) else memo1(f)
 
     def __init__(self, n, fn=None, items=None, dtype="float", view_of=None, is_list=False):
         self.n = n
@@ -932,6 +985,14 @@ def concat(parts, is_list=False):
 
 
 class Arr2:
+    @property
+    def fn(self):
+        return self._fn
+
+    @fn.setter
+    def fn(self, f):
+        self._fn = f if (f is None or getattr(f, "_memo", False)) else memo2(f)
+
     def __init__(self, r, c, fn=None, rows=None, dtype="float"):
         self.r = r
         self.c = c
